@@ -111,12 +111,22 @@ def new_net() -> SimNet:
     return SimNet()
 
 
+class CancelledErrorEscaped(Exception):
+    """asyncio.CancelledError came out of the top-level coroutine although nobody cancelled it: some library call let a
+    cancellation of one of its own tasks escape.  Re-raised as an ordinary exception so that every check's
+    `except Exception` treats it like any other exception that escaped the operation under observation."""
+
+
 def run_virtual(coro_fn, net=None, epoch=None, start: float = 0.0):
     """Run ``coro_fn(loop)`` on a fresh VLoop attached to ``net``; returns (result, loop)."""
+    import asyncio
     # Discover keeps class-level state tied to a loop
     msmart.discover.Discover._lock = None
     msmart.discover.Discover._cloud = None
-    return vloop.run(coro_fn, net=net, epoch=epoch, start=start)
+    try:
+        return vloop.run(coro_fn, net=net, epoch=epoch, start=start)
+    except asyncio.CancelledError as e:
+        raise CancelledErrorEscaped("asyncio.CancelledError escaped the operation") from e
 
 
 def public_state(ac) -> dict:
